@@ -229,4 +229,8 @@ def tasks(tier):
     ts.append(Task('check.closed.isolated', t_check('long', 'isolated', False), extra=x, overrides=dict(ov)))
     ts.append(Task('formulas.closed', t_closed, extra=x, overrides=dict(ov)))
     ts.append(Task('formulas.spot', t_spot, extra=x, overrides=dict(ov)))
+    # the forced close is a reduce-only market fill at the bankruptcy price: what it does to wallet, size and entry is the contract of
+    # Position._on_executed_order / FuturesExchange (shared with C03) - with the price of `formulas.*` the loss is the initial margin plus fees
+    import props.C03 as P3
+    ts += [t for t in P3.tasks(tier) if t.id.startswith('fill.') and '.ro.' in t.id]
     return ts
